@@ -523,7 +523,31 @@ func manyMutexes(i int) {
 			ms[j].Unlock()
 		}
 	}
-	wg.Wait()
+	// the rest must get through as well; a waiter that stays asleep on a free mutex without
+	// a token is lost here too (never wait for it unconditionally)
+	fin := make(chan struct{})
+	go func() { wg.Wait(); close(fin) }()
+	deadline = time.Now().Add(30 * time.Second)
+	for {
+		select {
+		case <-fin:
+			return
+		case <-time.After(20 * time.Millisecond):
+		}
+		d := dump()
+		for j := range ms {
+			if atomic.LoadInt32(&acquired[j]) == 0 {
+				if v, tokens := ms[j].VerifState(); v == 1 && tokens == 0 && asleep(d, j) && atomic.LoadInt32(&acquired[j]) == 0 {
+					run.Violation("C18/stress/lost-wakeup-among-many-mutexes", fmt.Sprintf("%d adjacent mutexes, each held with one goroutine asleep in Lock; all were unlocked: mutex #%d is free (word 1), no token is queued for it, and its waiter still sleeps in Lock's channel receive", n, j), map[string]interface{}{"round": i, "mutexes": n})
+					return // the sleeping goroutine is leaked
+				}
+			}
+		}
+		if time.Now().After(deadline) {
+			run.Inconclusive("many-mutexes-release-watchdog")
+			return
+		}
+	}
 }
 
 func stressPhase() {
